@@ -434,6 +434,19 @@ def front_end_tables(ctx):
                     bad.append({"method": method, "seed": seed, "count": count, "dimensions": dim, "batch_shape": list(batch.shape), "equal": False})
             except Exception as e:  # noqa
                 bad.append({"method": method, "seed": seed, "count": count, "dimensions": dim, "raised": repr(e)[:160]})
+        # the start seed / the counts handed over as numpy integers (as they come out of an integer array): same points as for Python ints
+        for mk_, nm_ in ((np.int64, "numpy.int64"), (np.int32, "numpy.int32"), (np.uint16, "numpy.uint16")):
+            n += 1
+            try:
+                ref_b = np.asarray(front.quasirandom(7, 3, method=method, seed=11), dtype=float)
+                ref_s = np.asarray(front.quasirandom(3, method=method, seed=11), dtype=float)
+                got_b = np.asarray(front.quasirandom(7, 3, method=method, seed=mk_(11)), dtype=float)
+                got_c = np.asarray(front.quasirandom(mk_(7), mk_(3), method=method, seed=11), dtype=float)
+                got_s = np.asarray(front.quasirandom(3, method=method, seed=mk_(11)), dtype=float)
+                if got_b.shape != ref_b.shape or got_c.shape != ref_b.shape or not (np.array_equal(got_b, ref_b) and np.array_equal(got_c, ref_b) and np.array_equal(got_s.reshape(-1), ref_s.reshape(-1))):
+                    bad.append({"method": method, "seed": 11, "count": 7, "dimensions": 3, "integers_given_as": nm_, "batch_shape": list(got_b.shape), "equal": False})
+            except Exception as e:  # noqa
+                bad.append({"method": method, "seed": 11, "integers_given_as": nm_, "raised": repr(e)[:160]})
         # long batches (a front end may build them in pieces): lengths around the powers of two up to 2^13, shape and the rows at the ends / piece boundaries
         for k in range(8, 14):
             for count in (2 ** k - 1, 2 ** k, 2 ** k + 1):
